@@ -1,6 +1,7 @@
 import PharmpyModel.Core.Expr
 import PharmpyModel.C13.Reader
 import PharmpyModel.C13.ModelLevel
+import PharmpyModel.C13.History
 /-
   Helper lemmas for C13 (core Lean only).
 -/
